@@ -69,7 +69,7 @@ def specs(rng, tier, wid, nw, env):
     N = 6000 if q else 100000
     for i in range(N):
         c = rng.random()
-        if c < 0.4: yield ('exp', rng.randint(1, 16), rng.choice([1, -1]), rng.choice([-1, 0, 1]), None, rng.randrange(8), rng.getrandbits(48))
+        if c < 0.4: yield ('exp', rng.randint(1, 16) if rng.random() < 0.8 else rng.choice([17, 24, 31, 32, 33, 64, 100, 257]), rng.choice([1, -1]), rng.choice([-1, 0, 1]), None, rng.randrange(8), rng.getrandbits(48))
         elif c < 0.7: yield ('rt', rng.choice(['raw', 'zstr', 'qstr', 'fstr']), rng.getrandbits(48))
         else: yield ('hdr', None, rng.getrandbits(48))
 
